@@ -4,7 +4,7 @@
    /repo/reactivex on every run by harness/translate/alloc_tr.py); the level that matters here is
    the FACTORY: state allocated when the operator value is built is shared by all applications. *)
 From Coq Require Import List String ZArith Bool.
-From RxVerif Require Import Ops.Closure Ops.ClosureFacts Gen.AllocTable.
+From RxVerif Require Import Ops.Closure Ops.ClosureFacts Gen.AllocTable Ops.ClosureTable.
 Import ListNotations.
 Open Scope string_scope.
 
@@ -34,6 +34,34 @@ Theorem C44_table_sound :
       forall h, trace_shared _ _ _ _ _ _ p h = trace_fresh _ _ _ _ _ _ p h.
 Proof. exact C44_rows_sound_thm. Qed.
 Print Assumptions C44_table_sound.
+
+(* ... instantiated at EVERY non-creation public function o of the generated table: the rows of o
+   pass the check and are not creation rows (consistency of the two generated tables, evaluated by
+   the kernel), so every levelled program whose factory store is described by the rows OF o -- code
+   at level L leaves every factory cell whose deepest write level is shallower than L untouched --
+   gives, shared by all applications, the trace of a fresh operator value per application, in EVERY
+   history.  What links a real operator to such a program stays the translator + differential run. *)
+Theorem C44_every_operator_levels :
+  forall o, In o alloc_ops -> o_creation o = false ->
+  cells_ok LFactory (fcells (rows_of (o_name o) alloc_table)) = true
+  /\ forall (Src In Out S : Type) (p : lprog Src In Out store store S) am,
+       described_by Src In Out S p (fcells (rows_of (o_name o) alloc_table)) am ->
+       forall h, trace_shared _ _ _ _ _ _ p h = trace_fresh _ _ _ _ _ _ p h.
+Proof. exact every_operator. Qed.
+Print Assumptions C44_every_operator_levels.
+
+(* pinned fact about the table as generated today: NO non-exempt site is allocated at factory or
+   module level for any non-creation function, so the described factory store is empty -- the
+   hypothesis then reads "the program never writes a factory cell", and the exempt sites (locks,
+   schedulers, the benign `duration` below) are outside the theorem *)
+Theorem C44_every_operator :
+  forall o, In o alloc_ops -> o_creation o = false ->
+  fcells (rows_of (o_name o) alloc_table) = []
+  /\ forall (Src In Out S : Type) (p : lprog Src In Out store store S) am,
+       described_by Src In Out S p (fcells (rows_of (o_name o) alloc_table)) am ->
+       forall h, trace_shared _ _ _ _ _ _ p h = trace_fresh _ _ _ _ _ _ p h.
+Proof. exact every_operator_empty. Qed.
+Print Assumptions C44_every_operator.
 
 (* the allowlisted benign factory-level site, pinned (idempotent normalisation of an argument) *)
 Theorem C44_benign_sites :
@@ -75,3 +103,22 @@ Proof. vm_compute. repeat split. Qed.
 
 Example C44_hypothesis_satisfiable : frame_F _ _ _ _ _ _ prog_app_iter.
 Proof. repeat split. Qed.
+
+(* the hypothesis of C44_every_operator is satisfiable, at a real row set, by a program with real
+   state (an application-level counter cell advanced by the handlers and read by the output); its
+   shared trace is not trivial *)
+Example C44_every_operator_hypothesis_satisfiable :
+  described_by unit unit Z unit prog_store_counter (fcells (rows_of "ops.ref_count" alloc_table)) [LHandler].
+Proof. exact store_counter_described_ref_count. Qed.
+
+Example C44_every_operator_witness_trace :
+  existsb (fun o => String.eqb (o_name o) "ops.ref_count" && negb (o_creation o)) alloc_ops = true
+  /\ trace_shared _ _ _ _ _ _ prog_store_counter [EApply tt; EApply tt; ESub 0; ESub 1; ERun 0 tt; ERun 0 tt; ERun 1 tt]
+     = [(0, tt, 0%Z); (0, tt, 1%Z); (1, tt, 0%Z)].
+Proof. vm_compute. split; reflexivity. Qed.
+
+(* ... and frame_F by a program whose factory state is real and READ by the output *)
+Example C44_hypothesis_satisfiable_with_factory_state :
+  frame_F _ _ _ _ _ _ prog_factory_const
+  /\ trace_shared _ _ _ _ _ _ prog_factory_const [EApply tt; ESub 0; ERun 0 tt; ERun 0 tt] = [(0, tt, 5%Z); (0, tt, 6%Z)].
+Proof. split; [exact factory_const_frame | vm_compute; reflexivity]. Qed.
